@@ -83,6 +83,13 @@ fn c02_ds2(n: usize, p: usize, m: usize) -> Dataset<u8, u8, Ix2> {
         .with_feature_names(C02_FNAMES[..p].to_vec())
         .with_target_names(C02_TNAMES[..m].to_vec())
 }
+/// exact ceil for |x| < 2^31 written with casts only, which CBMC constant-folds (its `ceilf` is not folded, so the
+/// split index stays symbolic for the solver even when the ratio is a literal)
+fn c02_ceil_by_cast(x: f32) -> f32 {
+    assert!(x > -2.0e9 && x < 2.0e9);
+    let t = x as i32 as f32;
+    if t < x { t + 1.0 } else { t }
+}
 fn c02_any_ratio() -> f32 {
     let ratio: f32 = kani::any();
     kani::assume(ratio >= 0.0 && ratio <= 1.0);
@@ -220,38 +227,6 @@ fn c02_split_view_mt_n3() {
 
 
 // ---- experiments
-// @unit class=bounded tier=thorough mem=heavy bound="n=2,p=2,single target,weights+names,ratio symbolic" timeout=600 fns=linfa::dataset::DatasetBase::split_with_ratio
-#[kani::proof]
-#[kani::unwind(5)]
-#[kani::stub(alloc::fmt::format, fmt_stub)]
-fn c02_split_view_n2() {
-    let ratio = c02_any_ratio();
-    let n1 = c02_ceil_count(2, ratio);
-    let ds = c02_ds1(2, 2, true, true);
-    let v = ds.view();
-    let (d1, d2) = v.split_with_ratio(ratio);
-    c02_post_split1(&d1, &d2, 2, 2, n1, true, true);
-    kani::cover!(n1 == 0);
-    kani::cover!(n1 == 1);
-    kani::cover!(n1 == 2);
-}
-
-// @unit class=bounded tier=thorough mem=heavy bound="n=3,p=1,single target,weights,no names,ratio symbolic" timeout=600 fns=linfa::dataset::DatasetBase::split_with_ratio
-#[kani::proof]
-#[kani::unwind(5)]
-#[kani::stub(alloc::fmt::format, fmt_stub)]
-fn c02_split_view_w_n3() {
-    let ratio = c02_any_ratio();
-    let n1 = c02_ceil_count(3, ratio);
-    let ds = c02_ds1(3, 1, true, false);
-    let v = ds.view();
-    let (d1, d2) = v.split_with_ratio(ratio);
-    c02_post_split1(&d1, &d2, 3, 1, n1, true, false);
-    kani::cover!(n1 == 0);
-    kani::cover!(n1 == 1);
-    kani::cover!(n1 == 3);
-}
-
 // @unit class=bounded tier=thorough mem=heavy bound="n=3,p=1,single target,no weights,names,ratio symbolic" timeout=600 fns=linfa::dataset::DatasetBase::split_with_ratio
 #[kani::proof]
 #[kani::unwind(5)]
@@ -269,19 +244,6 @@ fn c02_split_view_nm_n3() {
 }
 
 
-// @unit class=bounded tier=thorough mem=heavy bound="n=3,ratio 0.5" timeout=600 fns=linfa::dataset::DatasetBase::split_with_ratio
-#[kani::proof]
-#[kani::unwind(5)]
-#[kani::stub(alloc::fmt::format, fmt_stub)]
-fn c02_split_view_x1() {
-    let ratio = 0.5f32;
-    let n1 = c02_ceil_count(3, ratio);
-    let ds = c02_ds1(3, 2, true, true);
-    let v = ds.view();
-    let (d1, d2) = v.split_with_ratio(ratio);
-    c02_post_split1(&d1, &d2, 3, 2, n1, true, true);
-    kani::cover!(n1 == 2);
-}
 
 // ------------------------------------------------------------------ owned and view forms agree
 
